@@ -77,6 +77,35 @@ template<class G> struct Pred {
         o.scalar(S( (q>S(0)) ? 1 : ((q==S(0))?0:-1) )); o.scalar(S(zero?0:1)); }
       return true;
     }
+    if(op=="P06"){   // C06: X, Y, t, s
+      G X=mkG(c.args[0]), Y=mkG(c.args[1]); T t=mkT(c.args[2]), sv=mkT(c.args[3]);
+      using Alg = typename T::LieAlg; const int A = Alg::RowsAtCompileTime;
+      Dyn TX=X.transform(), TXi=X.inverse().transform();
+      Alg MX = TX.topLeftCorner(A,A), MXi = TXi.topLeftCorner(A,A);
+      J I = J::Identity();
+      { Alg conj = MX*sv.hat()*MXi; T as; as = (X.adj()*sv.coeffs()).eval(); o.mat(as.hat()); o.mat(conj); }   // Adj conj (exact)
+      o.mat(X.compose(Y).adj()); o.mat(J(X.adj()*Y.adj()));                                     // Adj hom (exact)
+      { Alg th=t.hat(), sh=sv.hat(); T r; r = (t.smallAdj()*sv.coeffs()).eval(); o.mat(r.hat()); o.mat(Alg(th*sh-sh*th)); }   // smallAdj (exact)
+      { T mt = -t; o.mat(t.ljac()); o.mat(mt.rjac()); }                                        // ljac = rjac(-t) (exact)
+      o.mat(J(t.rjac()*t.rjacinv())); o.mat(I);
+      o.mat(J(t.rjacinv()*t.rjac())); o.mat(I);
+      o.mat(J(t.ljac()*t.ljacinv())); o.mat(I);
+      o.mat(J(t.ljacinv()*t.ljac())); o.mat(I);
+      o.mat(t.exp().adj()); o.mat(J(t.ljac()*t.rjacinv()));                                    // Adj(exp t) = Jl Jr^-1
+      o.mat(J(X.inverse().adj()*X.adj())); o.mat(I);
+      return true;
+    }
+    if(op=="P06S"){  // C06 series: t   rjac = sum_k (-ad)^k/(k+1)!,  Adj(exp t) = sum_k ad^k/k!   (floating point only; |ad| moderate)
+      T t=mkT(c.args[0]);
+      J ad = t.smallAdj(); J term = J::Identity(), sumE = J::Identity(), sumJ = J::Identity();
+      for(int k=1;k<60;k++){ term = (term*ad/S(k)).eval(); sumE += term; sumJ += term/S(k+1); }    // sumJ = sum ad^k/(k+1)! = ljac
+      o.mat(t.ljac()); o.mat(sumJ);
+      o.mat(t.exp().adj()); o.mat(sumE);
+      { T mt=-t; J adm = mt.smallAdj(); J tm = J::Identity(), sj = J::Identity();
+        for(int k=1;k<60;k++){ tm = (tm*adm/S(k)).eval(); sj += tm/S(k+1); }
+        o.mat(t.rjac()); o.mat(sj); }
+      return true;
+    }
     return false;
   }
 };
